@@ -1,21 +1,24 @@
 ------------------------------ MODULE MCNestedGen ------------------------------
-(* Generator configuration for the nested cases (TLC, -dump dot): as MCLifecycleGen,    *)
-(* the harness issues one command at a time and only when the code is quiescent; "last" *)
-(* names the command that led to a state. Commands: run, stop, enter, finish:<kind>     *)
-(* (outer context), ienter:<i>, ifinish:<i>:<kind> (inner context i).                   *)
+(* Generator configuration for the nested cases (TLC, -dump dot): as MCLifecycleGen, the *)
+(* harness issues one command at a time and only when the code is quiescent; "last"      *)
+(* names the command that led to a state. Commands: run, stop, enter, finish:<kind>      *)
+(* (outer context), ienter:<i>, ifinish:<i>:<kind> (inner context i). "finish:end"       *)
+(* stands for every ending of the outer run (Done, assertion, Error label, resource      *)
+(* error in the body / in PreCommit); checks/C17.py substitutes them in turn.            *)
 EXTENDS NestedLifecycle, TLC
 
 VARIABLE last
 gvars == <<vars, last>>
 
 IName(i) == CASE i = 1 -> "1" [] i = 2 -> "2" [] i = 3 -> "3" [] OTHER -> "4"
+GKinds == {"commit", "abort", "done"}
 
 GInit == Init /\ last = "init"
 GEnv == /\ Quiescent
         /\ \/ RunCall /\ last' = "run"
            \/ \E t \in Stops : StopCall(t) /\ last' = "stop"
            \/ Enter /\ last' = "enter"
-           \/ \E k \in OKinds : Finish(k) /\ last' = "finish:" \o k
+           \/ \E k \in GKinds : Finish(k) /\ last' = "finish:" \o (IF k = "done" THEN "end" ELSE k)
            \/ \E i \in Inner : IEnter(i) /\ last' = "ienter:" \o IName(i)
            \/ \E i \in Inner : \E k \in IKinds : IFinish(i, k) /\ last' = "ifinish:" \o IName(i) \o ":" \o k
 GTau == Tau /\ last' = "tau"
